@@ -8,4 +8,6 @@ RS_1234 == {<<1>>, <<1, 2>>, <<2, 1, 3>>, <<1, 2, 3, 4>>}
 ImageOps == {"Apply", "ApplyO", "Return", "When", "Cancel", "Reset"}
 StubOps == {"Apply", "Return", "Returns", "When", "Cancel", "Reset", "Call"}
 SeqOps == {"Return", "Returns", "When", "Call", "Reset"}
+LogNames == {"OpenDebug", "CloseDebug", "OpenTrace", "CloseTrace"}
+LogOps == AllOps \cup LogNames
 ====
